@@ -114,6 +114,21 @@ def _exit(run, P):
                construct=f"{name}: last emission {last!r} (exit label {label})",
                why="an exit that does not go through the exit label skips the release "
                    "code after it: every user-type temporary live at that point leaks")
+    # no statement printer leaves the phase subroutine by itself
+    G_ = P.cls(GEN)
+    n_pr = 0
+    for name, m in sorted(G_.methods.items()):
+        if not (name.startswith("emit_inst_") or name in ("emit_return",)):
+            continue
+        n_pr += 1
+        rets = [(s, x) for _, _, s, x in _emit_strings(m) if re.match(r"^return\b", s.strip())]
+        run.ob("C12.exit", m, rets[0][1] if rets else m.node, not rets,
+               construct=f"{name}: emits no 'return'",
+               why="a phase subroutine is left through the exit label, after which the "
+                   "temporaries are released; a 'return' in the middle skips that (a 'stop' "
+                   "ends the program and is no leak)")
+    if n_pr < 6:
+        raise AnalysisError("Fortran generator: statement printers not found")
     # after the label: unfiltered release loop
     g = CFG(f.node)
     lab_cfg = None
